@@ -148,11 +148,37 @@ fn tombstone_one<K: El, V: El>(cfg: &Cfg, rng: &mut Rng, target: usize) -> HistO
                 }
             }
         }
+        // capacity calls and the headroom probe on a main table full of tombstones
+        let len = s.mon.map.len() as u64;
+        let free = s.mon.map.capacity() as u64 - len;
+        match rng.below(5) {
+            0 => {
+                s.go(Op::n(Code::Reserve, free + rng.below(3)));
+            }
+            1 => {
+                s.go(Op::n(Code::TryReserve, free.saturating_sub(1) + rng.below(4)));
+            }
+            2 => {
+                let mut l = Vec::new();
+                for i in 0..(2 * free + 2) {
+                    l.push((1u64 << 33) + next + i);
+                    l.push(i);
+                }
+                s.go(Op::new(Code::Extend).with_list(l));
+            }
+            3 => {
+                s.go(Op::new(Code::Probe));
+            }
+            _ => {}
+        }
         for _ in 0..(target / 4 + 20) {
             next += 1;
             if !s.go(Op::kv(Code::Insert, next, next)) {
                 break;
             }
+        }
+        if rng.chance(1, 2) {
+            s.go(Op::new(Code::Probe));
         }
     }
     s.finish()
@@ -165,7 +191,7 @@ pub fn ladder(a: &Args, rep: &mut Report) {
     let mut rng = sh.rng(0x1adde5);
     for h in 0..sh.n {
         let mut hr = rng.fork();
-        let elem = *hr.pick(&[ElemKind::U64, ElemKind::TrInline]);
+        let elem = *hr.pick(&[ElemKind::U64, ElemKind::TrInline, ElemKind::Big]);
         let mode = *hr.pick(&[HMode::Good, HMode::Good, HMode::Identity, HMode::SameTag]);
         let cap = *hr.pick(&[usize::MAX, 0, 3, 7, 28, 100, 1000]);
         let churn = hr.chance(1, 2);
@@ -180,11 +206,13 @@ pub fn ladder(a: &Args, rep: &mut Report) {
             rep.bump("tombstone_exhaustion_histories", 1);
             match elem {
                 ElemKind::U64 => tombstone_one::<u64, u64>(&cfg, &mut hr, tt),
+                ElemKind::Big => tombstone_one::<u64, Big>(&cfg, &mut hr, tt),
                 _ => tombstone_one::<Tr<false>, Tr<false>>(&cfg, &mut hr, tt),
             }
         } else {
             match elem {
                 ElemKind::U64 => ladder_one::<u64, u64>(&cfg, &mut hr, t, churn, bursts),
+                ElemKind::Big => ladder_one::<u64, Big>(&cfg, &mut hr, t.min(30000), churn, bursts),
                 _ => ladder_one::<Tr<false>, Tr<false>>(&cfg, &mut hr, t, churn, bursts),
             }
         };
@@ -337,11 +365,12 @@ pub fn sweep(a: &Args, rep: &mut Report) {
                         _ => ((len + 7) / 8).saturating_sub(1),
                     };
                     let tomb = if hr.chance(1, 3) { 1 + hr.usize(5) } else { 0 };
-                    let elem = if hr.chance(1, 4) { ElemKind::TrInline } else { ElemKind::U64 };
+                    let elem = *hr.pick(&[ElemKind::U64, ElemKind::U64, ElemKind::TrInline, ElemKind::Big]);
                     let mode = *hr.pick(&[HMode::Good, HMode::Good, HMode::Identity]);
                     let cfg = cfg_of(elem, Bh::new(mode, hr.below(3)), usize::MAX, 64, 16, focus);
                     let out = match elem {
                         ElemKind::U64 => sweep_case::<u64, u64>(&cfg, len, split_via, carried, tomb, call, argi),
+                        ElemKind::Big => sweep_case::<u64, Big>(&cfg, len, split_via, carried, tomb, call, argi),
                         _ => sweep_case::<Tr<false>, Tr<false>>(&cfg, len, split_via, carried, tomb, call, argi),
                     };
                     let out = match out {
@@ -574,6 +603,7 @@ pub fn chains(a: &Args, rep: &mut Report) {
                         ElemKind::U64 => chain_case::<u64, u64>(&cfg, state, size, class, t),
                         ElemKind::TrInline => chain_case::<Tr<false>, Tr<false>>(&cfg, state, size, class, t),
                         ElemKind::TrHeap => chain_case::<Tr<true>, Tr<true>>(&cfg, state, size, class, t),
+                        ElemKind::Big => chain_case::<u64, Big>(&cfg, state, size, class, t),
                     };
                     let out = match out {
                         Some(o) => o,
